@@ -24,6 +24,8 @@ def run(F, rep):
     rep.run(dt_seq.slice_view_tables, F, rep, "C13.6")
     rep.run(dt_seq.kmer_default_tables, F, rep, "C13.5")
     rep.run(lemmas.byte_container_lemmas, F, rep, "L-bytes")
+    # k-mers and terminal k-mers read from views (forward and reverse-complemented, at offsets that straddle storage words): exact
+    rep.run(lemmas.slice_getkmer_lemmas, F, rep, "C13.7", quick=(rep.tier != "thorough"))
     rep.run(lemmas.kmer_iter_e2e_lemmas, F, rep, "L-iter")
     for ty in common.kmer_type_names(F):
         rep.run(lemmas.kmer_default_lemmas, F, rep, ty, which={"from_bytes", "from_ascii", "bulk"}, rule="L-default")
